@@ -210,11 +210,19 @@ impl<S: WebSocket, T: TimestampProvider> Task<S, T> {
                 "ping/pong round trip time: {:?}",
                 last_pong_timestamp.duration_since(last_ping_sent)
             );
-            let elapsed_since_last_pong = T::now().duration_since(last_pong_timestamp);
-            if self
-                .keepalive_timeout
-                .cmp_duration(&elapsed_since_last_pong)
-                == core::cmp::Ordering::Less
+            let now = T::now();
+            let elapsed_since_last_pong = now.duration_since(last_pong_timestamp);
+            // A pong that arrived after our previous ping proves that the peer is alive:
+            // the timeout only applies while that ping is unanswered. Otherwise a tick
+            // that fires a little late (by more than the round-trip time) would declare
+            // a responsive peer dead whenever the timeout equals the interval.
+            let previous_ping_answered =
+                elapsed_since_last_pong <= now.duration_since(last_ping_sent);
+            if !previous_ping_answered
+                && self
+                    .keepalive_timeout
+                    .cmp_duration(&elapsed_since_last_pong)
+                    == core::cmp::Ordering::Less
             {
                 warn!("No pong received for {elapsed_since_last_pong:?}");
                 return Err(Error::KeepaliveTimeout);
